@@ -20,7 +20,7 @@ def run_config(chk, tier, cfgname):
                         "that the survivors counted in remembered_gcs are the documented quantity for concrete workloads",
                         "'returns with zero debt' as an arithmetic fact after finish_cycle(true)",
                         "wake-up thresholds on concrete allocation counts"]
-    common.protocol_rows(chk, prog, "exit-structure", ["collect_debt", "mark_debt", "cycle_debt"], with_pacing=True)
+    common.protocol_rows(chk, prog, "exit-structure", ["collect_debt", "mark_debt", "cycle_debt"], with_pacing=True, aspects=("pacing",))
     for t in ("trace", "trace_weak", "resurrect", "mark_one", "sweep_one", "backward_barrier", "forward_barrier", "link"):
         typestate.apply(chk, "credited-at-most-once:" + t, t, aspects=("credits", "credits-over"))
     rules_debt.check_formula(chk, prog)
